@@ -12,6 +12,7 @@ from hypothesis.stateful import precondition, rule
 
 from .. import env
 from ..runner import ops_machine_base, replay_ops
+from ..runs_common import InjectedFault
 
 ID = "C14"
 LEVEL = "exploration"
@@ -63,11 +64,17 @@ def _f(state):
     return os.path.join(state["dir"], "run.h5")
 
 
-def _callables(xp):
+def _callables(xp, state=None):
     def log_likelihood(s):
+        if state is not None:
+            state["ll_calls"] = state.get("ll_calls", 0) + 1
+            if state.get("fault_at") is not None and state["ll_calls"] == state["fault_at"]:
+                raise InjectedFault(f"likelihood call {state['ll_calls']}")
+        xp = s.xp  # namespace-agnostic: the instance in charge may change within a history
         return -0.5 * xp.sum((s.x - 0.2) ** 2 / 0.09, axis=-1)
 
     def log_prior(s):
+        xp = s.xp
         return xp.where(xp.all((s.x > -4) & (s.x < 4), axis=-1), -2 * float(np.log(8.0)), -xp.inf)
 
     return log_likelihood, log_prior
@@ -77,14 +84,17 @@ def _make(state, flavour, seed):
     from aspire import Aspire
 
     xp = env.xp_of("torch" if flavour == "zuko" else "numpy")
-    ll, lp = _callables(xp)
+    ll, lp = _callables(xp, state)
     state["ll"], state["lp"], state["xp"] = ll, lp, xp
     kw = dict(log_likelihood=ll, log_prior=lp, dims=2, parameters=["a", "b"], prior_bounds={"a": [-4.0, 4.0], "b": [-4.0, 4.0]}, xp=xp)
     if flavour == "zuko":
         return Aspire(flow_backend="zuko", seed=seed, hidden_features=[8], transforms=1, **kw)
     from pbt_flows import AnalyticFlow
 
-    return Aspire(flow=AnalyticFlow(2, kind="normal", loc=[0.0, 0.0], scale=[1.0, 1.0], seed=seed), flow_backend="pbt_analytic", **kw)
+    # the supplied proposal depends on the seed, so two instances created in one history hold different proposals
+    loc = [0.2 * (seed % 5) - 0.4, 0.1 * (seed % 3)]
+    scale = [1.0 + 0.25 * (seed % 4), 1.0]
+    return Aspire(flow=AnalyticFlow(2, kind="normal", loc=loc, scale=scale, seed=seed), flow_backend="pbt_analytic", **kw)
 
 
 def _data(which, xp):
@@ -185,6 +195,18 @@ def apply(state, op, ctx, case):
             state["aspire"] = _make(state, op["flavour"], op["seed"])
             state["labels"].add("flavour:" + op["flavour"])
         return
+    if kind == "new_instance":
+        # another Aspire object (its own, never fitted, supplied proposal) takes over; the file stays
+        if state["aspire"] is None or state["stack"]:
+            return
+        fs0 = _file_state(path)
+        if fs0 and fs0["has_flow"]:
+            state["refit_after_file_flow"] = True
+        state["flavour"] = "analytic"
+        state["aspire"] = _make(state, "analytic", op["seed"])
+        state["fitted"] = False
+        state["labels"].add("new-instance")
+        return
     a = state["aspire"]
     if a is None:
         return
@@ -199,8 +221,8 @@ def apply(state, op, ctx, case):
         state["fitted"] = True
         state["labels"].add("fit")
     elif kind == "sample":
-        if not state["fitted"]:
-            return
+        if not state["fitted"] and state["flavour"] != "analytic":
+            return  # (a proposal supplied at construction can be sampled without a fit)
         in_auto = bool(state["stack"])
         p = path if op["path"] == "f" else None
         target = p or (getattr(a, "_checkpoint_defaults", {}) or {}).get("path")
@@ -219,7 +241,13 @@ def apply(state, op, ctx, case):
             kw.update(adaptive=False, n_steps=2, sampler_kwargs={"nsteps": 1, "progress": False})
         minipcn.reset(); emcee.reset()
         np.random.seed(op["seed"] % 2**32)
-        a.sample_posterior(**kw)
+        state["ll_calls"], state["fault_at"] = 0, op.get("fault_at")
+        try:
+            a.sample_posterior(**kw)
+        except InjectedFault:
+            state["labels"].add("interrupted")
+        finally:
+            state["fault_at"] = None
         if target and os.path.abspath(str(target)) == os.path.abspath(path) and op["sampler"] != "importance":
             state["samplers_into_f"].append(op["sampler"])
         state["labels"].add("sample:" + op["sampler"])
@@ -269,11 +297,18 @@ def machine(tier, ctx, last):
         def fit(self, data, path, overwrite):
             self.do({"op": "fit", "data": data, "path": path, "overwrite": overwrite})
 
-        @precondition(lambda self: self.state["fitted"])
+        @precondition(lambda self: self.state["fitted"] or (self.state["aspire"] is not None and self.state["flavour"] == "analytic"))
         @rule(sampler=st.sampled_from(["importance", "smc", "smc", "emcee_smc"]), path=st.sampled_from([None, "f", "f"]),
-              every=st.integers(1, 3), save_config=st.sampled_from([True, True, True, False]), seed=st.integers(0, 10**6))
-        def sample(self, sampler, path, every, save_config, seed):
-            self.do({"op": "sample", "sampler": sampler, "path": path, "every": every, "save_config": save_config, "seed": seed})
+              every=st.integers(1, 3), save_config=st.sampled_from([True, True, True, False]), seed=st.integers(0, 10**6),
+              fault_at=st.one_of(st.none(), st.none(), st.integers(1, 9)))
+        def sample(self, sampler, path, every, save_config, seed, fault_at):
+            self.do({"op": "sample", "sampler": sampler, "path": path, "every": every, "save_config": save_config, "seed": seed,
+                     "fault_at": fault_at})
+
+        @precondition(lambda self: self.state["aspire"] is not None and not self.state["stack"])
+        @rule(seed=st.integers(0, 10**6))
+        def new_instance(self, seed):
+            self.do({"op": "new_instance", "seed": seed})
 
         @precondition(lambda self: self.state["aspire"] is not None and len(self.state["stack"]) < 2)
         @rule(every=st.integers(1, 3), save_config=st.booleans(), save_flow=st.booleans())
